@@ -92,7 +92,8 @@ def gen(w, rng):
     if form in ("read", "read_nc"):
         if rng.random() < 0.2 and not pos:
             st["tol"] = rng.choice([0.3, 1.0, 5])
-            st["nudge"] = True
+            # 0.5 lands exactly half-way between consecutive integer labels: the tie must go the same way on disk and in memory
+            st["nudge"] = rng.choice([0.25, 0.25, 0.5, 0.5, -0.5, -0.25])
         if rng.random() < 0.2 and form == "read":
             st["keepdims"] = True
         if "idx" in st and rng.random() < 0.3 and v["dims"]:
@@ -137,7 +138,8 @@ def _decode(idx):
 def _nudge(x, st):
     """With a tolerance, ask for a neighbour of the label instead of the label itself."""
     if st.get("nudge") and isinstance(x, (int, float)) and not isinstance(x, bool):
-        return x + 0.25
+        n = st["nudge"]
+        return x + (0.25 if n is True else n)     # True: replay files written before the offset became a drawn value
     return x
 
 
